@@ -22,7 +22,9 @@ def levels(tier):
             {"name": "n2", "shapes": [[1, 2, 3]], "n": 2, "alphabet": edits},
             {"name": "n3", "shapes": [[1, 2, 2]], "n": 3, "alphabet": ["we", "delwe", "addprefix"]},
             {"name": "refused", "shapes": [[1, 2, 2]], "n": 2, "prelude": [["we", [[1, 1], [2, 2]]]],
-             "alphabet": ["we", "addprefix", "delbad", "deldup", "rmforeign"]},
+             "alphabet": ["we", "delbad", "deldup", "rmforeign"], "we_two_prefixes": True},
+            {"name": "auto-links", "typed": [{"hosts": 2, "paths": 1}, {"hosts": 2, "paths": 1, "scheme": None}], "default": "domain",
+             "anchored": (0, 3, "path1"), "n": 1, "alphabet": ["links", "page"], "links_batch": 1},
             {"name": "auto-n2", "typed": TPOOL, "default": "domain", "anchored": (1, 3, "path1"), "n": 2, "alphabet": ["we", "page"],
              "every_step": True},
         ]
